@@ -250,35 +250,43 @@ func c18Encoders(c *Ctx) {
 			for _, e := range p.Effects {
 				switch {
 				case e.Kind == "store" && e.Addr.isParam(0):
-					v := e.Val
-					if !(v.Op == "builtin" && v.Sym == "append" && isBufLoad(v.Args[0])) {
-						bad = "buffer store that is not an append: " + v.Key()
+					// *b = append(*b, …) — or a chain of appends built up in a local and stored back once
+					var chain []*Term
+					v := e.Val.unver()
+					for v.Op == "builtin" && v.Sym == "append" && len(v.Args) == 2 {
+						chain = append(chain, v)
+						v = v.Args[0].unver()
+					}
+					if !isBufLoad(v) || len(chain) == 0 {
+						bad = "buffer store that is not an append: " + e.Val.Key()
 						continue
 					}
-					src := v.Args[1]
-					switch {
-					case src.Op == "slice" && src.Args[0].Op == "alloc":
-						// append(*b, x, y, …) / append(*b, make([]byte, k)...): a fresh [k]byte array, sliced whole or [:k]
-						k := int64(1)
-						if al, ok := src.Args[0].V.(*ssa.Alloc); ok {
-							if pt, ok := al.Type().Underlying().(*types.Pointer); ok {
-								if at, ok := pt.Elem().Underlying().(*types.Array); ok {
-									k = at.Len()
+					for _, ap := range chain {
+						src := ap.Args[1].unver()
+						switch {
+						case src.Op == "slice" && src.Args[0].unver().Op == "alloc":
+							// append(x, a, b, …) / append(x, make([]byte, k)...): a fresh [k]byte array, sliced whole or [:k]
+							k := int64(1)
+							if al, ok := src.Args[0].unver().V.(*ssa.Alloc); ok {
+								if pt, ok := al.Type().Underlying().(*types.Pointer); ok {
+									if at, ok := pt.Elem().Underlying().(*types.Array); ok {
+										k = at.Len()
+									}
 								}
 							}
-						}
-						if hk, ok := lit(src.Args[2]); ok {
-							k = hk
-						}
-						n += int(k)
-					case src.Op == "make":
-						if k, ok := lit(src.Args[0]); ok {
+							if hk, ok := lit(src.Args[2]); ok {
+								k = hk
+							}
 							n += int(k)
-						} else {
-							bad = "append of a slice of unknown length"
+						case src.Op == "make":
+							if k, ok := lit(src.Args[0]); ok {
+								n += int(k)
+							} else {
+								bad = "append of a slice of unknown length"
+							}
+						default:
+							bad = "append of " + src.Key()
 						}
-					default:
-						bad = "append of " + src.Key()
 					}
 				case e.Kind == "call" && !e.Pure && e.Call.Op == "call" && strings.HasPrefix(e.Call.Sym, "ddsketch/encoding.Encode"):
 					delegates = true
